@@ -42,6 +42,11 @@ def check(repo, res, tier):
                         'an observation admitted while another is still streaming is checked against current free space only (DESIGN.md section 6)']
     b1_b2(repo, res, canon, pc, logic)
     b3(repo, res, canon, logic)
+    from . import initial
+    res.rule('C07.B9', 'initial state: an observation holds no data, nothing is pending between the tiers')
+    initial.check_values(repo, res, 'C07.B9', [('Observation', 'total_data_size', 0), ('Buffer', '_data_left_to_transfer', 0)],
+                         {('Observation', 'total_data_size'): 'removing the observation frees more than was ever deposited',
+                          ('Buffer', '_data_left_to_transfer'): 'the hot tier looks fuller than it is from the first step on'})
     b4(repo, res, canon, logic)
     b5(repo, res, canon)
     # B6
